@@ -134,7 +134,10 @@ func (w *raceWatcher) check() (viol []*core.Violation, noise []string) {
 		if b == "" {
 			b = "(outside gorm)"
 		}
-		pair := []string{a + "[" + r.acc[0].kind + "]", b + "[" + r.acc[1].kind + "]"}
+		// the key is the unordered pair of innermost gorm functions; access kinds are not
+		// part of it (which of several racing accesses to one address the detector
+		// reports first depends on what it reported earlier in the process)
+		pair := []string{a, b}
 		sort.Strings(pair)
 		viol = append(viol, &core.Violation{Class: "data_race", Key: pair[0] + " / " + pair[1], Detail: firstLines(r.text, 40)})
 	}
@@ -147,4 +150,16 @@ func firstLines(s string, n int) string {
 		l = l[:n]
 	}
 	return strings.Join(l, "\n")
+}
+
+// sharesFunction reports whether two race keys ("f / g") have a function in common.
+func sharesFunction(k1, k2 string) bool {
+	for _, a := range strings.Split(k1, " / ") {
+		for _, b := range strings.Split(k2, " / ") {
+			if a == b && a != "(outside gorm)" {
+				return true
+			}
+		}
+	}
+	return false
 }
